@@ -54,6 +54,7 @@ def run(ctx):
         ctx.evaluations += 1
     corpus = ec.ep_corpus(ctx)
     settings = [{"max_iterations": 3}, {"max_iterations": 2, "max_shape": 2.0, "regularise_roots": False},
+                {"max_iterations": 3, "max_shape": 3.0},
                 {"max_iterations": 2, "singletons_phased": False, "rescaling_intervals": 0}]
     if not q:
         settings += [{}, {"max_iterations": 10, "max_shape": 1.5}, {"max_iterations": 5, "singletons_phased": False},
